@@ -7,13 +7,18 @@
    The four lookups leave the store unchanged (matchNPMRequirement sorts a copy of the slice
    it is handed), so only AddVersion writes.
 
-   [variant] selects the replace branch of AddVersion:
+   [v_add] of the variant selects the replace branch of AddVersion:
      Current        versions[i] = w   the code in the tree (F-C14-1: stores the old value back)
      FixAssign      versions[i] = v   the one-token repair
      FixAssignSort  versions[i] = v and SortVersions also after a replacement *)
 From DepsDev Require Import Lib.Base Lib.Sort Gen.ResolveTables Resolve.Attr Resolve.MatchReq.
 
-Inductive variant := Current | FixAssign | FixAssignSort.
+Inductive addvar := Current | FixAssign | FixAssignSort.
+
+(* the variant of the code under consideration: the replace branch of AddVersion and the
+   state of match.go (MatchReq.mcfg).  The check selects it by replaying the recorded
+   witnesses on the Go tree, so the model follows the tree. *)
+Record variant := { v_add : addvar; v_cfg : mcfg }.
 
 Section Maps.
   Context {K V : Type} (eqb : K -> K -> bool).
@@ -75,11 +80,11 @@ Section WithOracle.
     let existed := existsb (same_key (v_key v)) versions in
     let replaced :=
       map (fun w => if same_key (v_key v) w
-                    then match var with Current => w | _ => v end
+                    then match v_add var with Current => w | _ => v end
                     else w) versions in
     if existed
-    then match var with FixAssignSort => sort_versions O replaced | _ => replaced end
-    else sort_versions O (replaced ++ [v]).
+    then match v_add var with FixAssignSort => sort_versions (v_cfg var) O replaced | _ => replaced end
+    else sort_versions (v_cfg var) O (replaced ++ [v]).
 
   Definition add_version (c : client) (v : version) (deps : list reqver) : client :=
     if deleted v then c
@@ -110,7 +115,7 @@ Section WithOracle.
   Definition matching_versions (c : client) (k : vkey) : res (list version) :=
     match pkg_list c (vk_pkg k) with
     | None => Err ENotFound
-    | Some vs => Ok (match_requirement O k vs)
+    | Some vs => Ok (match_requirement (v_cfg var) O k vs)
     end.
 
   Definition step (c : client) (o : hop) : client * option obs :=
